@@ -681,6 +681,9 @@ def run(chk):   # noqa
     _cbstate_rule(chk, prog)
     _markpath_rule(chk, prog)
     _stacklocal_rule(chk, prog, S)
+    _rootcount_rule(chk, prog)
+    _compilerlock_rule(chk, prog)
+    _segmentmark_rule(chk, prog)
 
 
 def _threadedmark_rule(chk, prog):
@@ -1210,3 +1213,114 @@ def _stacklocal_rule(chk, prog, S):
                               "`%s` points into a fiber's stack (%s at %s) and is used at %s after `%s`, which can reallocate that "
                               "stack: the use reads or writes freed memory" % (v, site.text()[:50], site.loc, x.loc, call.text()[:50]))
     chk.floor(rule, 8, n)
+
+
+def _rootcount_rule(chk, prog):
+    """Explicit roots are counted: janet_gcroot appends one entry per call and janet_gcunroot removes one - the same
+    value may be rooted by several owners (one handler function installed for two signals), and each gives back only
+    its own registration.  janet_gcunrootall is the function that removes them all.  So the removal branch of
+    janet_gcunroot ends the search."""
+    rule = "C01-ROOTCOUNT"
+    chk.rule(rule, "janet_gcunroot removes exactly one registration: the branch that removes an entry returns (or breaks) at once")
+    fn = prog.need_func("janet_gcunroot", "gc.c")
+    chk.analysed(fn)
+    chk.instance(rule)
+    removes = [x for x in fn.nodes if (x.k == "un" and x.op in ("--", "pre--", "post--") and any(y.k == "mem" and y.field == "root_count" for y in x.walk()))
+               or (x.k == "asg" and x.op == "-=" and x.kids[0].k == "mem" and x.kids[0].field == "root_count")]
+    if not removes:
+        raise AnalysisBroken("janet_gcunroot: the decrement of root_count was not found")
+    bad = None
+    for r in removes:
+        q = r.parent
+        while q is not None and q.k not in ("if", "compound"):
+            q = q.parent
+        # the enclosing statement list must end the search
+        blk = r.parent
+        while blk is not None and blk.k != "compound":
+            blk = blk.parent
+        ends = blk is not None and any(y.k in ("return", "break", "goto") for y in blk.kids)
+        loop = blk
+        inloop = False
+        while loop is not None:
+            if loop.k in ("for", "while", "do"):
+                inloop = True
+            loop = loop.parent
+        if inloop and not ends:
+            bad = r
+    if bad is None:
+        chk.ok(rule, "janet_gcunroot stops after the first registration it removes")
+    else:
+        chk.violation(rule, "gc.c", "janet_gcunroot", "remove-all", bad.loc,
+                      "janet_gcunroot removes an entry inside its search loop and goes on searching: one unroot drops every registration of "
+                      "the value, so an object rooted by two owners (one function installed as the handler of two signals) loses the "
+                      "second owner's root as well and is freed while that owner still uses it")
+    chk.floor(rule, 1)
+
+
+def _compilerlock_rule(chk, prog):
+    """The compiler keeps its half-built state in C memory only: scratch-allocated vectors and finished inner function
+    definitions hanging off scopes.  A collection frees all scratch memory and cannot see those definitions.  Where the
+    compiler re-enters the interpreter (macro expansion, the :missing-symbol hook) the collector is therefore locked -
+    rooting the callee's fiber is not a substitute."""
+    rule = "C01-COMPILERLOCK"
+    chk.rule(rule, "every call from compile.c / specials.c that re-enters the interpreter (janet_continue, janet_call, janet_pcall) runs between janet_gclock and janet_gcunlock")
+    n = 0
+    for fn in prog.all_funcs():
+        if fn.tu.name not in ("compile.c", "specials.c"):
+            continue
+        calls = [c for c in fn.nodes if c.k == "call" and c.callee in ("janet_continue", "janet_call", "janet_pcall", "janet_continue_signal")]
+        if not calls:
+            continue
+        chk.analysed(fn)
+
+        def transfer(st, x):
+            if x.k == "call" and x.callee == "janet_gclock":
+                return frozenset(["locked"])
+            if x.k == "call" and x.callee == "janet_gcunlock":
+                return frozenset()
+            return st
+        IN, OUT = flow.forward(fn, frozenset(), transfer, lambda a, b: a & b)
+        for x, st in flow.states_at(fn, IN, transfer):
+            if x in calls:
+                n += 1
+                chk.instance(rule)
+                if "locked" in st:
+                    chk.ok(rule, "%s: %s runs with the collector locked" % (fn.name, x.callee))
+                else:
+                    chk.violation(rule, fn.tu.name, fn.name, x.callee, x.loc,
+                                  "%s calls %s, which runs Janet code, without holding the collector lock: a collection there frees the "
+                                  "compiler's scratch vectors and the inner function definitions only its scopes point to" % (fn.name, x.callee))
+    chk.floor(rule, 2, n)
+
+
+def _segmentmark_rule(chk, prog):
+    """A ring that has wrapped is marked in two passes - head .. capacity and 0 .. tail.  Both passes walk the same
+    kind of element, so they have to mark the same members of it; a member left out of the second pass is marked only
+    while the ring happens not to be wrapped."""
+    rule = "C01-SEGMENTMARK"
+    chk.rule(rule, "the two passes over a wrapped ring in janet_ev_mark mark the same members of each element")
+    fn = prog.need_func("janet_ev_mark", "ev.c")
+    chk.analysed(fn)
+    n = 0
+    for x in fn.nodes:
+        if x.k != "if" or len(x.kids) < 3 or x.kids[2] is None:
+            continue
+        loops = [y for y in x.kids[2].walk() if y.k == "for"]
+        if len(loops) != 2:
+            continue
+
+        def members(lp):
+            return set(z.field for c in lp.walk() if c.k == "call" and (c.callee or "").startswith("janet_mark") for z in c.walk() if z.k == "mem" and z.rec not in ("JanetVM", "JanetQueue"))
+        a, b = members(loops[0]), members(loops[1])
+        if not a and not b:
+            continue
+        n += 1
+        chk.instance(rule)
+        if a == b:
+            chk.ok(rule, "both passes mark {%s}" % ",".join(sorted(a)))
+        else:
+            chk.violation(rule, "ev.c", "janet_ev_mark", "members:" + ",".join(sorted(a ^ b)), loops[1].loc,
+                          "the two passes over the wrapped ring mark different members (%s against %s): `%s` of an element in the other segment "
+                          "is not kept alive - a value handed to a parked taker lives only in its run-queue task and is freed by a collection "
+                          "that finds the ring wrapped" % (sorted(a), sorted(b), ", ".join(sorted(a ^ b))))
+    chk.floor(rule, 1, n)
